@@ -119,10 +119,10 @@ def token_violation(got, ref):
     k = first_diff(got, ref)
     want = ref[k] if k < len(ref) else '<end>'
     have = got[k] if k < len(got) else '<end>'
-    if k < len(ref) and k < len(got) and ref[k].startswith(got[k]) and len(got[k]) < len(ref[k]):
-        kind = f'splits {tok_class(ref[k])}'
-    elif got.count('&') > ref.count('&'):
+    if got.count('&') > ref.count('&'):
         kind = f'leaves stray continuation marker in {stmt_kind(ref)}'
+    elif k < len(ref) and k < len(got) and ref[k].startswith(got[k]) and len(got[k]) < len(ref[k]):
+        kind = f'splits {tok_class(ref[k])}'
     else:
         kind = f'alters tokens of {stmt_kind(ref)}'
     return kind, f'token #{k}: unwrapped text has {want!r}, joined wrapped text has {have!r}'
@@ -405,6 +405,18 @@ def fam_defs(quick):
         'strcat': (R(1, 20, 40), P(3, 11)),
         'comment': (R(90, 140, 150), P(0, 3)),
         'nest': (R(0, 30, 44), P(0, 3)),
+        'forall': (R(1, 14, 28), P(1, 5)),
+        'elsewhere': (R(1, 14, 28), P(1, 5)),
+        'typedef': (R(1, 24, 40), P(1, 7)),
+        'funchead': (R(1, 24, 48), P(1, 7)),
+        'declstr': (R(1, 20, 32), P(1, 7)),
+        'inlineifcall': (R(1, 20, 32), P(1, 5)),
+        'allocopt': (R(1, 16, 30), P(1, 5)),
+        'userename': (R(1, 16, 30), P(1, 7)),
+        'namedif': (R(1, 12, 24), P(1, 5)),
+        'format': (R(1, 24, 40), P(1, 5)),
+        'openstmt': (R(1, 16, 24), P(1, 3)),
+        'stmtfunc': (R(1, 16, 30), P(1, 5)),
     }
     for ctx in ('assign', 'concat', 'callarg', 'print'):
         for var in LITBODY:
@@ -595,6 +607,75 @@ def gen_units(family, ns, pad, seed):
             body.append(f"call ext_n{dpt}(a, 'some text (with) parens', {_expr(4, dpt)})")
             for k in reversed(range(dpt)):
                 body.append('end do' if k % 2 == 0 else 'end if')
+    elif family == 'forall':
+        for n in ns:
+            body += [mark(n), f'forall (i = 1:n, arr(i) > {_expr(max(1, n // 2), n)}) '
+                              f'arr(i) = {lhs}*0.0_jprb + {_expr(n, n + 1)}']
+        if pad:
+            body.insert(0, f'{lhs} = 1.0_jprb')
+    elif family == 'elsewhere':
+        for n in ns:
+            body += [mark(n), f'where (arr > {_expr(n, n)})', f'arr = {_expr(max(1, n // 2), n + 2)}',
+                     f'elsewhere (arr < {lhs}*0.0_jprb - {_expr(n, n + 3)})', 'arr = a', 'elsewhere', 'arr = bb',
+                     'end where']
+        if pad:
+            body.insert(0, f'{lhs} = 1.0_jprb')
+    elif family == 'typedef':
+        for n in ns:
+            comps = [f'c{sp[2]}{k}' + ('(4)' if k % 3 == 0 else '') for k in range(1, n + 1)]
+            spec += [mark(n), f'type ty{n}', f'real(kind=jprb) :: {sp[0] * pad}q{n}, ' + ', '.join(comps),
+                     f'end type ty{n}']
+    elif family == 'funchead':
+        for n in ns:
+            names = [f'f{sp[2]}{k}' for k in range(1, n + 1)]
+            routines.append(f'{mark(n)}\npure elemental function fh{sp[0] * pad}{n}({", ".join(names)}) result(res{n})\n' +
+                            'real(kind=jprb), intent(in) :: ' + ', '.join(names) + f'\nreal(kind=jprb) :: res{n}\n' +
+                            f'res{n} = ' + ' + '.join(names) + f'\nend function fh{sp[0] * pad}{n}')
+    elif family == 'declstr':
+        q = ["don''t", 'plain text', '(a) b)c', "x''''y", 'say "hi"', 'a ! b & c']
+        for n in ns:
+            text = ' '.join(q[(k + n) % len(q)] for k in range(n))
+            decls += [mark(n), f"character(len=*), parameter :: {sp[0] * pad}cs{n} = '{text}'"]
+    elif family == 'inlineifcall':
+        for n in ns:
+            body += [mark(n), f'if ({_cond(max(1, n // 3), n)}) call ey{sp[1] * pad}{n}({", ".join(_terms(n, n))})']
+    elif family == 'allocopt':
+        nmax = max(ns)
+        names = [f'p{sp[2]}{k}' for k in range(1, nmax + 1)]
+        decls.append('real(kind=jprb), pointer :: ' + ', '.join(f'{x}(:)' for x in names))
+        decls.append(f'integer :: ierr{sp[0] * pad}')
+        for n in ns:
+            body += [mark(n), f'allocate({", ".join(f"{x}(n + {k})" for k, x in enumerate(names[:n]))}, '
+                              f'stat=ierr{sp[0] * pad})',
+                     mark(n), f'nullify({", ".join(names[:n])})']
+    elif family == 'userename':
+        nmax = max(ns)
+        gl = [f'g{sp[2]}{k}' for k in range(1, nmax + 1)]
+        aux = ('module c04_aux' + sp[0] * pad + '\nimplicit none\n' +
+               '\n'.join(f'real :: {g}' for g in gl) + '\nend module c04_aux' + sp[0] * pad + '\n')
+        for n in ns:
+            routines.append(f'subroutine ur{n}()\n{mark(n)}\nuse c04_aux{sp[0] * pad}, ' +
+                            ', '.join(f'loc_{g} => {g}' for g in gl[:n]) + f'\nend subroutine ur{n}')
+    elif family == 'namedif':
+        for n in ns:
+            body += [mark(n), f'blk{sp[0] * pad}{n}: if ({_cond(n, n)}) then', 'a = bb',
+                     f'else if ({_cond(n, n + 1)}) then blk{sp[0] * pad}{n}', 'a = ccc', f'end if blk{sp[0] * pad}{n}']
+    elif family == 'format':
+        items = ["'it''s'", 'I0', '1X', 'F8.2', "'(x) y'", 'A', '3(1X, E12.4)']
+        for n in ns:
+            body += [mark(n), f'{1000 + n} format({", ".join(items[(k + n) % len(items)] for k in range(n))}{", A" * pad})']
+    elif family == 'openstmt':
+        specs = ["file='some file name.dat'", "form='unformatted'", "access='stream'", "status='unknown'",
+                 "action='readwrite'", "position='asis'", 'iostat=i', 'iomsg=s']
+        for n in ns:
+            body += [mark(n), f"open(unit=10 + {10 ** pad}, {', '.join(specs[k % len(specs)] for k in range(n))})"]
+    elif family == 'stmtfunc':
+        for n in ns:
+            names = [f'x{sp[2]}{k}_{n}' for k in range(1, n + 1)]
+            decls.append(f'real(kind=jprb) :: sf{sp[0] * pad}{n}, ' + ', '.join(names))
+        for n in ns:
+            names = [f'x{sp[2]}{k}_{n}' for k in range(1, n + 1)]
+            decls += [mark(n), f'sf{sp[0] * pad}{n}({", ".join(names)}) = ' + ' + '.join(f'{x}*2.0_jprb' for x in names)]
     else:
         raise KeyError(family)
     return dict(aux=aux, spec=spec, procs=procs, decls=decls, body=body, routines=routines)
